@@ -54,6 +54,12 @@ func (e *SpecEnv) force(v *SVal) *SVal {
 	if v.LV {
 		r := e.fr.readLocIn(e.heap, v.Loc)
 		r.T = v.T
+		// memory holds values of the declared types: ground reads get their type range
+		for _, l := range r.flat() {
+			if l.Term != "" && kindOf(l.T) == KInt && !hasBound(l.Term) {
+				e.fr.x.assumeRange(l.Term, l.T)
+			}
+		}
 		if e.sumCtx != nil {
 			r = e.sumCtx.lift(e, r)
 		}
